@@ -114,6 +114,10 @@ func ifaceEqual(x any, v *jr.Value) bool {
 	return false
 }
 
+var classicIllFormed = []string{`{"a":1,}`, `[1,]`, `[,1]`, `{"a":1,,"b":2}`, `{,}`, `-01`, `01`, `00`, `-`, `+1`, `.5`, `1.`, `1e`, `1e+`, `0x10`, `1_000`, `NaN`, `Infinity`, `-Infinity`, `tru`, `True`, `nul`, `undefined`,
+	`'a'`, `{'a':1}`, `{a:1}`, `{"a" 1}`, `{"a":}`, `{"a"}`, `[1 2]`, `"\x41"`, `"\u12"`, `"\u12G4"`, `"\'"`, `"\a"`, "\"a\nb\"", "\"a\tb\"", "\"\x00\"", `"abc`, `abc"`, `/*c*/1`, `1//c`, `#c`, `[1]]`, `{}}`, `]`, `}`, `[`, `{`, `{"a":[}`, `[{"a":1]`,
+	"\xef\xbb\xbf1", "\v1", "1\f", "\u00a01", `1 2`, `{} {}`, `"a" "b"`, `[1,2,]`, `{"a":1 "b":2}`, `[[]`, `{"a":{"b":1}`, `-0x1`, `1.e5`, `1.5.5`, `--1`, `1-`, `""""`, `\`, `"\"`}
+
 func judgeDecode(c *core.Ctx, text string, kind string) {
 	b := []byte(text)
 	var p jp.Patch
@@ -393,6 +397,33 @@ func init() {
 			{Name: "root-kinds", Exhaustive: true, Count: func(core.Tier) int { return 16 }, Run: func(c *core.Ctx, idx int) {
 				roots := []string{`[]`, ` [ ] `, `{}`, `{"op":"remove","path":"/a"}`, `"[]"`, `7`, `true`, `null`, ``, ` `, `[[]]`, `[{}]`, `[null]`, "\n[\n]\n", `[]]`, `[`}
 				judgeDecode(c, roots[idx], "root")
+			}},
+			{Name: "classic-ill-formed-json", Exhaustive: true, Count: func(core.Tier) int { return len(classicIllFormed) * 6 * 3 }, Run: func(c *core.Ctx, idx int) {
+				// the usual ways in which a text is almost JSON (trailing commas, leading zeros, signs, bare words,
+				// single quotes, comments, bad escapes, stray closers, ...), each as the value / as an extra
+				// member / as trailing text of every operation kind: all of them must be refused
+				bad := classicIllFormed[idx%len(classicIllFormed)]
+				idx /= len(classicIllFormed)
+				op := canonicalOps[idx%6]
+				idx /= 6
+				good := spellOp(op)
+				var t string
+				switch idx % 3 {
+				case 0: // as the value of an (ignored or used) member
+					t = `[` + good[:len(good)-1] + `,"x":` + bad + `}]`
+				case 1: // as a further element of the patch
+					t = `[` + good + `,` + bad + `]`
+				default: // wrapped around the whole patch
+					t = bad + `[` + good + `]`
+					if c.R.Intn(2) == 0 {
+						t = `[` + good + `]` + bad
+					}
+				}
+				if _, rej := refAccept([]byte(t)); rej == "" {
+					return // (a fragment that happens to give a well-formed patch in this position)
+				}
+				c.Count("classic-ill-formed:planted")
+				judgeDecode(c, t, "classic-ill-formed")
 			}},
 			{Name: "generated-valid-patches", Count: n(30000, 1800000), Run: func(c *core.Ctx, idx int) {
 				cfg := &SeqCfg{Prof: seqProf, MinOps: 0, MaxOps: 8, MissRate: 30, RootOK: true, ContinueAfterFail: true}
